@@ -44,6 +44,8 @@ func init() {
 				Edits: []Edit{{File: "driver/generic/sendwithcallbacks.go", Old: "\t\t\t\tfor i, cb := range callbacks {\n\t\t\t\t\tif cb.check(b) {", New: "\t\t\t\tfor i := len(callbacks) - 1; i >= 0; i-- {\n\t\t\t\t\tcb := callbacks[i]\n\t\t\t\t\tif cb.check(b) {"}}},
 			{ID: "C18-skip-scan-when-quiet", Desc: "triggers only re-evaluated when new bytes arrived", Rule: "C18/scan-every-pass",
 				Edits: []Edit{{File: "driver/generic/sendwithcallbacks.go", Old: "\t\t\t\tb = append(b, rb...)\n\t\t\t\tfb = append(fb, rb...)\n\n\t\t\t\tfor i, cb := range callbacks {", New: "\t\t\t\tif len(rb) == 0 {\n\t\t\t\t\tcontinue\n\t\t\t\t}\n\n\t\t\t\tb = append(b, rb...)\n\t\t\t\tfb = append(fb, rb...)\n\n\t\t\t\tfor i, cb := range callbacks {"}}},
+			{ID: "C18-scan-skips-spent", Desc: "scan skips once-callbacks that already fired", Rule: "C18/scan-every-callback",
+				Edits: []Edit{{File: "driver/generic/sendwithcallbacks.go", Old: "\t\t\t\tfor i, cb := range callbacks {\n\t\t\t\t\tif cb.check(b) {", New: "\t\t\t\tfor i, cb := range callbacks {\n\t\t\t\t\tif cb.Once && cb.triggered {\n\t\t\t\t\t\tcontinue\n\t\t\t\t\t}\n\n\t\t\t\t\tif cb.check(b) {"}}},
 			{ID: "C18-needle-not-lowered", Desc: "haystack lower-cased but needle left as given", Rule: "C18/case",
 				Edits: []Edit{{File: "driver/generic/sendwithcallbacks.go", Old: "\t\tc.containsBytes = []byte(c.Contains)\n\n\t\tif c.Insensitive {\n\t\t\tc.containsBytes = bytes.ToLower(c.containsBytes)\n\t\t}", New: "\t\tc.containsBytes = []byte(c.Contains)"}}},
 			{ID: "C18-next-timeout-ignored", Desc: "NextTimeout ignored", Rule: "C18/execute",
@@ -64,6 +66,7 @@ func runC18(c *Ctx, r *Report) {
 	r.Rule("C18/trigger-table", "check(b) == (Contains!=\"\" && contains(b) || ContainsRe!=nil && re(b)) && !(NotContains!=\"\" && b contains the not-contains text), for all 128 rows", 128)
 	r.Rule("C18/case", "haystack and needles are lower-cased under the same Insensitive flag, which defaults to true", 4)
 	r.Rule("C18/first-in-order", "callbacks are scanned by a range loop in list order and the first true check leaves the scan with that index", 1)
+	r.Rule("C18/scan-every-callback", "inside the scan every callback's check is evaluated before moving to the next one", 1)
 	r.Rule("C18/scan-every-pass", "every pass of the handleCallbacks poll loop evaluates the triggers on the accumulated output, whether or not the read returned new bytes", 1)
 	r.Rule("C18/execute", "Once&&triggered -> ErrOperationError without running the callback; triggered set before the callback; callback gets the accumulated output; Complete returns the full buffer; ResetOutput clears only the trigger buffer; NextTimeout honoured", 6)
 	r.Rule("C18/timeout", "the deadline edge of handleCallbacks returns ErrTimeoutError", 1)
@@ -306,6 +309,35 @@ func checkCallbackScan(c *Ctx, r *Report, check *ssa.Function) {
 		r.Bad(rule, "handleCallbacks scan", c.Pos(site.Pos()), "the index reported for the triggered callback is not the position of the callback whose check was true")
 	default:
 		r.OK(rule, "handleCallbacks scan", c.Pos(site.Pos()), "range order, first true check reported with its own index")
+	}
+	// every callback's trigger is evaluated: inside the scan no path leads back to the loop header (next callback)
+	// without having called check on the current one -- a skipped earlier callback would let a later one win
+	rule3 := "C18/scan-every-callback"
+	var body *ssa.BasicBlock
+	for _, s := range hdr.Succs {
+		if loopBlocks(hdr)[s] {
+			body = s
+		}
+	}
+	if body == nil || len(body.Instrs) == 0 {
+		r.Unk(rule3, "handleCallbacks scan", c.Pos(site.Pos()), "cannot locate the body of the scan loop")
+	} else {
+		first := body.Instrs[0]
+		stopAt := func(in ssa.Instruction) bool { return in == ssa.Instruction(site) }
+		skipped := false
+		if !stopAt(first) {
+			rr3 := reachFrom(worker, first, stopAt, nil)
+			for in := range rr3.visited {
+				if in.Block() == hdr {
+					skipped = true
+				}
+			}
+		}
+		if skipped {
+			r.Bad(rule3, "handleCallbacks scan", c.Pos(site.Pos()), "a callback can be passed over without its trigger being evaluated (a path from the top of the scan body to the next iteration avoids check): a later callback in the list then runs although an earlier one's trigger holds, and the once error of a spent callback is never raised")
+		} else {
+			r.OK(rule3, "handleCallbacks scan", c.Pos(site.Pos()), "every iteration evaluates check on its element")
+		}
 	}
 	// every pass of the poll loop evaluates the triggers: no path from the channel read back to the
 	// channel read that does not enter the scan (the carried-over buffer of a callback that does not
